@@ -34,7 +34,8 @@ RULE = ("seeded generator. SOCKS5: byte scripts built from greeting / USER-PASS 
         "chunkings (whole, byte-wise, random, with zero-length reads) and ALL chunkings of a short authenticated prefix. "
         "HTTP: requests serialised from structured cases (CONNECT / GET, keep-alive sequences) with ~25 Proxy-Authorization variants "
         "(case, spacing, bad base64, padding, no colon, several colons, U+0130 in the scheme name), pipelined tails and split points "
-        "inside / at / behind the header block. cachedConn / connWithOneByte: random buffers, chunkings and read sizes incl. zero. "
+        "inside / at / behind the header block; CONNECT requests that declare a body (Content-Length 0 / n / more than follows, "
+        "Transfer-Encoding: chunked, both) in front of tunnel payload, split at every point. cachedConn / connWithOneByte: random buffers, chunkings and read sizes incl. zero. "
         "Mux: random histories of ListenSOCKS/ListenHTTP/sub-listener Close/Accept/incoming/first byte/read error (each behind 0..n "
         "zero-length reads) on a muxListener in a "
         "synctest bubble, observed at every quiescent point and replayed against the LTS. Non-trivial = an upstream was opened, or "
@@ -298,11 +299,20 @@ def pauth_variants(rng, user=USER, pw=PASS):
     return v
 
 
-def http_req(rng, connect, host, port, pauth, keepalive, status):
-    """returns (serialised bytes, structured dict)"""
+def http_req(rng, connect, host, port, pauth, keepalive, status, cl=None, te=False):
+    """returns (serialised bytes, structured dict); cl / te = body-framing fields (Content-Length value,
+    Transfer-Encoding: chunked) put on the request"""
     hp = host + (b":" + port if port else b"")
     if connect:
         lines = [b"CONNECT " + hp + b" HTTP/1.1", b"Host: " + hp]
+        fr = []
+        if cl is not None:
+            fr.append(rng.choice([b"Content-Length: ", b"content-length:"]) + str(cl).encode())
+        if te:
+            fr.append(rng.choice([b"Transfer-Encoding: chunked", b"transfer-encoding:  Chunked"]))
+        rng.shuffle(fr)
+        for f in fr:
+            lines.insert(rng.randrange(1, len(lines) + 1), f)
     else:
         lines = [b"GET http://" + hp + b"/p?q=1 HTTP/1.1", b"Host: " + hp]
         if keepalive:
@@ -312,13 +322,26 @@ def http_req(rng, connect, host, port, pauth, keepalive, status):
         lines.insert(rng.randrange(1, len(lines) + 1), rng.choice([b"Proxy-Authorization: ", b"proxy-authorization:", b"Proxy-Authorization:   "]) + pauth)
     raw = b"\r\n".join(lines) + b"\r\n\r\n"
     addr = host + b":" + (port if port else b"80")
-    return raw, {"connect": connect, "addr": hx(addr), "pauth": None if pauth is None else hx(pauth), "ka": keepalive, "st": status}
+    return raw, {"connect": connect, "addr": hx(addr), "pauth": None if pauth is None else hx(pauth), "ka": keepalive, "st": status,
+                 "cl": cl if connect else None, "te": bool(te and connect)}
 
 
 def gen_http(rng, tier):
     scale = 1 if tier == "quick" else 10
     cases = []
     hosts = [(b"example.com", b"443"), (b"a.b", b"8080"), (b"10.1.2.3", b"22"), (b"h-1.internal", b""), (b"x.y", b"80")]
+
+    def emit_cuts(auth, reqs, tail, cutsets, dial=True, user=USER, pw=PASS):
+        """one case per set of split points of header blocks ++ tail"""
+        raws = b"".join(r for r, _ in reqs)
+        stream = raws + tail
+        h = len(raws)
+        for cuts in cutsets:
+            cuts = sorted(c for c in set(cuts) if 0 < c < len(stream))
+            ch = [stream[a:b] for a, b in zip([0] + cuts, cuts + [len(stream)])]
+            cases.append({"k": "http", "auth": auth, "user": hx(user), "pass": hx(pw), "dial": dial,
+                          "chunks": [hx(c) for c in ch], "status": [r[1]["st"] for r in reqs if not r[1]["connect"]],
+                          "tail": h if reqs[-1][1]["connect"] else -1, "reqs": [r[1] for r in reqs], "h": h})
 
     def emit(auth, reqs, tail, dial, user=USER, pw=PASS):
         raws = b"".join(r for r, _ in reqs)
@@ -347,6 +370,7 @@ def gen_http(rng, tier):
                           "chunks": [hx(c) for c in ch], "status": [r[1]["st"] for r in reqs if not r[1]["connect"]],
                           "tail": h if lastc else -1, "reqs": [r[1] for r in reqs], "h": h})
 
+    full_done = [0]      # every split point of the whole stream: once per framing (thorough tier)
     for _ in range(scale):
         for name, pa in pauth_variants(rng):
             for connect in (True, False):
@@ -375,6 +399,44 @@ def gen_http(rng, tier):
         r2 = http_req(rng, False, b"x.y", b"8080", good, True, 404)
         r3 = http_req(rng, True, b"c.d", b"443", good, False, 200)
         emit(True, [r1, r2, r3], b"\x16\x03\x01tls", True)
+        # CONNECT whose header block declares a body (Content-Length 0 / n / exactly / more than what follows,
+        # Transfer-Encoding: chunked in front of a well-formed chunked body, of a truncated one and of bytes that
+        # are no chunked body at all, both fields): req.Body then reads from the reader that holds the pipelined
+        # bytes, and whatever follows the blank line is tunnel payload and must reach the upstream - whole stream,
+        # byte-wise, and split in two at EVERY point (quick: every point from just before the blank line on, and
+        # a few inside the header block)
+        good = b"Basic " + b64(USER + b":" + PASS)
+        nraw = rng.randint(6, 14) if tier != "quick" else rng.randint(5, 8)
+        rawtail = bytes(rng.randrange(256) for _ in range(nraw))
+        chunk = bytes(rng.randrange(256) for _ in range(rng.randint(1, 5)))
+        chunked = b"%x\r\n" % len(chunk) + chunk + b"\r\n0\r\n\r\n"
+        more = bytes(rng.randrange(256) for _ in range(rng.randint(1, 6)))
+        framings = [(0, False, rawtail), (rng.randint(1, nraw - 1), False, rawtail), (nraw, False, rawtail),
+                    (nraw + rng.randint(1, 9), False, rawtail), (1 << rng.choice([12, 20, 40]), False, rawtail),
+                    (rng.randint(1, nraw), False, b""),
+                    (None, True, chunked + more), (None, True, chunked), (None, True, chunked[:-rng.randint(1, 4)]),
+                    (None, True, rawtail), (None, True, b"zz\r\n" + rawtail), (rng.randint(0, nraw), True, chunked + more)]
+        if tier == "quick":
+            # one of each kind: length 0 / short / over-long / huge-or-exact, chunked (well-formed / not), both
+            framings = [framings[0], framings[1], framings[rng.choice([3, 4])], framings[rng.choice([2, 5])],
+                        framings[rng.choice([6, 7, 8])], framings[rng.choice([9, 10])], framings[11]]
+        for cl, te, tail in framings:
+            host, port = rng.choice(hosts)
+            auth = rng.random() < 0.8
+            r = http_req(rng, True, host, port or b"443", good if auth or rng.random() < 0.5 else None, False, 200, cl=cl, te=te)
+            h, n = len(r[0]), len(r[0]) + len(tail)
+            if tier != "quick" and full_done[0] < len(framings):
+                full_done[0] += 1
+                pts = list(range(1, n))
+            else:
+                pts = sorted(set(range(h - 2, n)) | set(rng.sample(range(1, h - 2), 2)))
+            cutsets = [[], list(range(1, n))] + [[p] for p in pts] + ([[h, p] for p in pts[::3] if p > h] if tier != "quick" else [])
+            emit_cuts(auth, [r], tail, cutsets, dial=True)
+        # the same behind a keep-alive plain request
+        r1 = http_req(rng, False, b"x.y", b"", good, True, 204)
+        r2 = http_req(rng, True, b"a.b", b"81", good, False, 200, cl=rng.randint(1, 5), te=rng.random() < 0.3)
+        hh = len(r1[0]) + len(r2[0])
+        emit_cuts(True, [r1, r2], b"behind-connect", [[], [hh], [hh - 1], [hh + 2], [len(r1[0]), hh + 1]])
         # credentials with other shapes
         for user, pw in ((b"u", b"p"), (b"", b"p"), (b"u", b""), (b"a:b", b"c"), (b"\xc3\xa9", b"\x00\xff")):
             pa = b"Basic " + b64(user + b":" + pw)
@@ -601,7 +663,9 @@ def to_coq(c, o):
     if k == "http":
         reqs = "[" + ";".join("mkHReq %s %s %s %s %d" % (cbool(r["connect"]), cb(r["addr"]),
                                                          "None" if r["pauth"] is None else "(Some %s)" % cb(r["pauth"]),
-                                                         cbool(r["ka"]), r["st"]) for r in c["reqs"]) + "]"
+                                                         cbool(r["ka"]), r["st"]) +
+                              (" FrChunked" if r.get("te") else " (FrLen %d)" % r["cl"] if r.get("cl") is not None else " FrNone")
+                              for r in c["reqs"]) + "]"
         return "CHttp %s %s %s %d%%nat %s %s" % (auth_term(c), cbool(c["dial"]), reqs, c["h"], script(c["chunks"]), hev_terms(o["ev"]))
     if k in ("cached", "onebyte"):
         if "reads" not in o:
